@@ -1266,3 +1266,484 @@ def crypto_history(seed, nops=40):
             h.op(f"verinit @{k} {mech} @{key}"); h.op(f"verify @{k} {data.hex() or '.'} {flip(rng, mac)}")
     h.op("fini")
     return h.text()
+
+
+# ---------------------------------------------------------------------------------------------------------
+# C17: hostile but well-typed arguments — mutations of valid histories
+# ---------------------------------------------------------------------------------------------------------
+HOSTILE_HANDLES = ["0", "1", "2", "3", "7", "50", "4294967295", "4294967296", "18446744073709551615", "9223372036854775807"]
+HOSTILE_MECHS = ["0", "1", "3", "9", "d", "21", "220", "250", "1040", "1041", "1050", "1057", "1080", "1081", "1082", "1082:00", "1082:" + "00" * 15, "1082:" + "00" * 17, "1085:" + "00" * 17, "1085:" + "11" * 16,
+                 "1086", "1086:ctr(0,00)", "1086:ctr(129,ff)", "1086:ctr(1,ffffffffffffffffffffffffffffffff)", "1086:" + "00" * 8,
+                 "1087", "1087:00", "1087:gcm(,,0)", "1087:gcm(" + "00" * 300 + ",,136)", "1087:gcm(00,,7)", "1087:gcm(000102030405060708090a0b," + "ab" * 70 + ",96)", "2109:00", "2109", "210a", "210a:00",
+                 "9:oaep(0,0,)", "9:oaep(250,9,ffff)", "9:oaep(220,1,)", "9:00", "9:" + "00" * 39, "d:pss(0,0,0)", "d:pss(220,1,4294967295)", "d:pss(250,2,32)", "d:0000", "e:pss(220,1,20)", "43:pss(250,2,32)",
+                 "1050:ecdh(1,)", "1050:ecdh(2,04)", "1050:ecdh(1,0441" + "00" * 65 + ")", "1050:ecdh(1,04" + "00" * 64 + ")", "1050:ecdh(1,04" + "ff" * 64 + ")", "1050:ecdh(1,0400)", "1050:00",
+                 "1104:str(.)", "1104:str(00)", "1104:00", "1105:cbcd(00,00)", "1105:cbcd(" + "00" * 16 + ",)", "1102:cbcd(0000000000000000," + "00" * 7 + ")", "1100:" + "00" * 9,
+                 "360:obj(0)", "360:obj(18446744073709551615)", "360", "360:00", "21:", "21:00", "21:" + "ff" * 300, "999", "80000001", "ffffffff", "1041:" + "00" * 16, "1045", "1044", "1044:00", "40", "251", "252",
+                 "1:00", "3:00", "6", "1042", "1043", "1046", "132", "133", "136", "1021", "1022", "1025", "1089", "108a", "121", "122", "125", "101", "102", "105"]
+# argument kinds by position (after the op word); a trailing "T" / "G" stands for "template entries / getattr items to the end of the line"
+HOSTILE_SCHEMA = {
+    "close": "H", "sinfo": "H", "login": "HNB", "logout": "H", "initpin": "HB", "setpin": "HBB", "create": "HT", "copy": "HHT", "destroy": "HH", "probe": "HH", "objsize": "HH",
+    "setattr": "HHT", "getattr": "HHG", "findinit": "HT", "find": "HN", "findfinal": "H", "genkey": "HMT", "genpair": "HMT", "encinit": "HMH", "decinit": "HMH", "siginit": "HMH", "verinit": "HMH",
+    "diginit": "HM", "enc": "HBO", "dec": "HBO", "sign": "HBO", "digest": "HBO", "encupd": "HBO", "decupd": "HBO", "encfinal": "HO", "decfinal": "HO", "sigfinal": "HO", "digfinal": "HO",
+    "sigupd": "HB", "verupd": "HB", "digupd": "HB", "digkey": "HH", "verify": "HBB", "verfinal": "HB", "wrap": "HMHHO", "unwrap": "HMHBT", "derive": "HMHT", "kcv": "HH", "random": "HN", "seed": "HB",
+}
+HOSTILE_TYPES = ["0", "1", "2", "3", "11", "100", "102", "103", "104", "105", "106", "107", "108", "10a", "10c", "110", "111", "120", "121", "122", "130", "132", "161", "162", "163", "164", "165", "166", "170",
+                 "180", "210", "40000211", "40000212", "40000600", "80005349", "ffffffff", "90", "86", "8b", "202", "171"]
+
+
+def _hostile_bytes(rng, tok):
+    c = rng.random(); cur = "" if tok in (".", "-") else tok
+    if c < 0.2: return "."
+    if c < 0.25: return "-"
+    if c < 0.55: return cur + "cd" * rng.choice([1, 7, 8, 15, 16, 17, 255, 4096, 70000])
+    if c < 0.8: return cur[:2 * rng.randrange(0, max(1, len(cur) // 2))] or "."
+    return "".join(rng.choice("0123456789abcdef") for _ in range(2 * rng.choice([1, 8, 16, 24, 32, 64, 128, 256])))
+
+
+def _hostile_entry(rng, tok):
+    ty, _, val = tok.partition("="); c = rng.random()
+    if c < 0.2: return f"{ty}=."
+    if c < 0.3: return f"{ty}=!0" if rng.random() < 0.3 else f"{ty}=."       # NULL pointer, length 0: valid memory of the stated size
+    if c < 0.5 and val and val[0] not in "{!": return f"{ty}={val[:2 * rng.randrange(0, max(1, len(val) // 2))] or '.'}"
+    if c < 0.65 and val and val[0] not in "{!": return f"{ty}={(val if val != '.' else '') + 'ab' * rng.choice([1, 7, 8, 64, 5000])}"
+    if c < 0.8: return f"{rng.choice(HOSTILE_TYPES)}={val or '.'}"
+    return f"{ty}={{{';'.join(rng.sample(['162=01', '1=.', '40000211=00', '0=' + 'ff' * 8, '3=' + 'ab' * 300, '161=00', '40000600=0102', '100=1f00000000000000', '11=' + '00' * 32], rng.randrange(0, 5)))}}}"
+
+
+def hostile_history(seed, tables, nmut=25):
+    """a valid history of one of the generators with `nmut` of its lines damaged, by argument kind: handles replaced by hostile values or by a reference to the result of
+    another call (a session where an object is expected, a destroyed object, …), byte strings cut / extended / emptied / NULL / random, mechanisms and their parameters
+    replaced (wrong size, wrong structure, extreme fields), output sizes changed, template entries emptied, cut, extended, retyped, duplicated or nested.
+    Pointers stay valid and sizes honest (the harness owns every buffer), which is the premise of C17."""
+    rng = random.Random(seed)
+    base = rng.choice([lambda: ops_history(seed, 50), lambda: wrap_history(seed, 30), lambda: object_history(seed, tables, 40), lambda: crypto_history(seed, 25),
+                       lambda: pin_history(seed, 40), lambda: spine_history(seed, 25, probe_every=False)])()
+    lines = base.rstrip("\n").split("\n")
+    cand = [i for i, l in enumerate(lines) if l.split()[0] in HOSTILE_SCHEMA]
+    for i in rng.sample(cand, min(nmut, len(cand))):
+        w = lines[i].split(); sch = HOSTILE_SCHEMA[w[0]]
+        kinds = [sch[min(j - 1, len(sch) - 1)] for j in range(1, len(w))]
+        for _ in range(rng.choice([1, 1, 2])):
+            if len(w) < 2: break
+            j = rng.randrange(1, len(w)); k = kinds[j - 1] if j - 1 < len(kinds) else sch[-1]; tok = w[j]
+            if tok == "/": continue
+            if k == "H": w[j] = rng.choice(HOSTILE_HANDLES + [f"@{rng.randrange(0, i + 1)}"] * 6 + [tok])
+            elif k == "N": w[j] = rng.choice(["0", "1", "2", "3", "15", "16", "17", "255", "4096", "100000"])
+            elif k == "O": w[j] = rng.choice(["n", "0", "1", "15", "16", "17", "31", "255", "100000"])
+            elif k == "M": w[j] = rng.choice(HOSTILE_MECHS)
+            elif k == "B":
+                if tok.startswith("blob:"): w[j] = rng.choice([tok + f",trunc={rng.randrange(0, 40)}", tok + f",drop={rng.randrange(1, 40)}", tok + ",append=" + "00" * rng.choice([1, 8, 16]), tok + f",flip={rng.randrange(0, 400)}", ".", "00"])
+                else: w[j] = _hostile_bytes(rng, tok)
+            elif k == "T":
+                c = rng.random()
+                if c < 0.15: w.insert(j, tok); kinds.insert(j - 1, "T")
+                elif c < 0.25: del w[j]; del kinds[j - 1]
+                else: w[j] = _hostile_entry(rng, tok)
+            elif k == "G":
+                ty, _, cap = tok.partition(":")
+                w[j] = rng.choice([f"{ty}:{rng.choice(['n', '0', '1', '7', '8', '9', '4096'])}", f"{rng.choice(HOSTILE_TYPES)}:{cap}", tok + " " + tok])
+        lines[i] = " ".join(w)
+    return "\n".join(lines) + "\n"
+
+
+ED25519_OID = "06032b6570"
+X25519_OID = "06032b656e"
+
+
+def degenerate_key_history(seed, per=10):
+    """C17: key objects whose components are degenerate (empty, zero, one byte, random, over-long, another curve's parameters) — C_CreateObject accepts any bytes —
+    driven through every operation a key of that class can start (sign, verify, encrypt, decrypt, wrap, unwrap, derive, digest-key, copy, attribute read)."""
+    rng = random.Random(seed)
+    h = OpsGen(rng); h.prologue(1); t = h.toks[0]
+    k = h.open(t, True); h.login(k, t, 'user')
+    U = ul; R = RSA1024
+    rb = lambda n: bytes(rng.randrange(256) for _ in range(n)).hex() or "."
+    d = rng.randrange(1, 2**255); Q = p256_mul(d, P256_G)
+    pt = "0441" + "04" + Q[0].to_bytes(32, "big").hex() + Q[1].to_bytes(32, "big").hex()
+    pO = OAKLEY2.to_bytes(128, 'big').hex(); qO = ((OAKLEY2 - 1) // 2).to_bytes(128, 'big').hex()
+    x = rng.randrange(2, 2**160); y = pow(4, x, OAKLEY2).to_bytes(128, 'big').hex(); xh = x.to_bytes(20, 'big').hex()
+    use = "104=01 105=01 106=01 107=01 108=01 10a=01 10c=01 162=01 103=00"
+    usepub = "104=01 106=01 10a=01 10c=01"
+    usepriv = "105=01 107=01 108=01 10c=01 162=01 103=00"
+    shapes = {      # name -> (fixed part, {component attr: good value})
+        "rsapub": (f"0={U(2)} 100={U(0)} {usepub}", {"120": R['n'], "122": "010001"}),
+        "rsaprv": (f"0={U(3)} 100={U(0)} {usepriv}", {"120": R['n'], "122": "010001", "123": R['d'], "124": R['p'], "125": R['q'], "126": R['dp'], "127": R['dq'], "128": R['qi']}),
+        "dsapub": (f"0={U(2)} 100={U(1)} {usepub}", {"130": pO, "131": qO, "132": "04", "11": y}),
+        "dsaprv": (f"0={U(3)} 100={U(1)} {usepriv}", {"130": pO, "131": qO, "132": "04", "11": xh}),
+        "dhpub": (f"0={U(2)} 100={U(2)} {usepub}", {"130": pO, "132": "02", "11": y}),
+        "dhprv": (f"0={U(3)} 100={U(2)} {usepriv}", {"130": pO, "132": "02", "11": xh}),
+        "ecpub": (f"0={U(2)} 100={U(3)} {usepub}", {"180": P256, "181": pt}),
+        "ecprv": (f"0={U(3)} 100={U(3)} {usepriv}", {"180": P256, "11": d.to_bytes(32, 'big').hex()}),
+        "edpub": (f"0={U(2)} 100={U(0x40)} {usepub}", {"180": ED25519_OID, "181": "0420" + rb(32)}),
+        "edprv": (f"0={U(3)} 100={U(0x40)} {usepriv}", {"180": ED25519_OID, "11": rb(32)}),
+        "xprv": (f"0={U(3)} 100={U(0x40)} {usepriv}", {"180": X25519_OID, "11": rb(32)}),
+        "aes": (f"0={U(4)} 100={U(0x1f)} {use}", {"11": rb(16)}),
+        "des3": (f"0={U(4)} 100={U(0x15)} {use}", {"11": rb(24)}),
+        "des": (f"0={U(4)} 100={U(0x13)} {use}", {"11": rb(8)}),
+        "gen": (f"0={U(4)} 100={U(0x10)} {use}", {"11": rb(20)}),
+    }
+    bad = lambda good: rng.choice([".", "00", "01", "ff", "0000000000000000", rb(rng.choice([1, 2, 7, 8, 15, 31, 33, 64])), "ff" * rng.choice([16, 128, 600]), good[:-2] or ".", good[2:] or ".", good + "00", "00" + good,
+                                   ED25519_OID, X25519_OID, P256, "0400", "0441" + "04" + "00" * 64, "0441" + "00" * 65, "04" + "00" * 64, "3000", "0600", "06082a8648ce3d030107ff", "06052b81040022"])
+    sym_mechs = ["1081", f"1082:{rb(16)}", f"1085:{rb(16)}", "1086:ctr(128," + rb(16) + ")", "1087:gcm(" + rb(12) + ",,128)", "132", f"133:{rb(8)}", f"136:{rb(8)}", "121", f"122:{rb(8)}", f"125:{rb(8)}", "221", "251", "108a", "138", "2109", "210a", "1089"]
+    asig = ["1", "3", "6", "40", "d:pss(220,1,20)", "43:pss(250,2,32)", "11", "12", "1041", "1042", "1044", "1057"]
+    aenc = ["1", "3", "9:oaep(220,1,)"]
+    for _ in range(per):
+        name = rng.choice(list(shapes)); fixed, comps = shapes[name]
+        vals = dict(comps)
+        for a in rng.sample(list(comps), min(len(comps), rng.choice([1, 1, 1, 2, len(comps)]))):
+            c = rng.random()
+            if c < 0.12: del vals[a]
+            else: vals[a] = bad(comps[a])
+        key = h.op(f"create @{k} {fixed} 3={hx(h.new_label())} " + " ".join(f"{a}={v}" for a, v in vals.items())); h.minted += 1
+        h.op(f"getattr @{k} @{key} 0:8 100:8 11:600 120:600 130:600 180:600 181:600 161:8 90:8")
+        h.op(f"objsize @{k} @{key}")
+        data = rb(rng.choice([0, 1, 16, 20, 32, 64, 128]))
+        if name in ("aes", "des3", "des", "gen"):
+            for m in rng.sample(sym_mechs, 5):
+                which = rng.choice(["enc", "dec", "sig", "ver"])
+                h.op(f"{which}init @{k} {m} @{key}")
+                if which in ("enc", "dec"): h.op(f"{which} @{k} {data} 700")
+                elif which == "sig": h.op(f"sign @{k} {data} 700")
+                else: h.op(f"verify @{k} {data} {rb(16)}")
+            h.op(f"digkey @{k} @{key}")
+            m = rng.choice(["2109", "210a", f"1085:{rb(16)}", f"1082:{rb(16)}", f"136:{rb(8)}"])
+            h.op(f"wrap @{k} {m} @{key} @{key} 700")
+            h.op(f"unwrap @{k} {m} @{key} {rb(rng.choice([0, 8, 16, 24, 32, 40]))} 0={U(4)} 100={U(0x1f)} 162=01 103=00")
+            h.op(f"derive @{k} {rng.choice(['1104:str(' + rb(16) + ')', '1105:cbcd(' + rb(16) + ',' + rb(32) + ')', '1100:str(' + rb(8) + ')', '1102:cbcd(' + rb(8) + ',' + rb(16) + ')', '360:obj(0)'])} @{key} 0={U(4)} 100={U(0x1f)} 161={U(16)} 162=01 103=00")
+        elif name.endswith("pub"):
+            for m in rng.sample(asig, 4):
+                h.op(f"verinit @{k} {m} @{key}"); h.op(f"verify @{k} {data} {rb(rng.choice([0, 1, 40, 64, 128]))}")
+            for m in rng.sample(aenc, 2):
+                h.op(f"encinit @{k} {m} @{key}"); h.op(f"enc @{k} {data} 700")
+            h.op(f"wrap @{k} {rng.choice(aenc)} @{key} @{key} 700")
+        else:
+            for m in rng.sample(asig, 4):
+                h.op(f"siginit @{k} {m} @{key}"); h.op(f"sign @{k} {data} 700")
+            for m in rng.sample(aenc, 2):
+                h.op(f"decinit @{k} {m} @{key}"); h.op(f"dec @{k} {rb(rng.choice([0, 1, 127, 128, 129]))} 700")
+            h.op(f"unwrap @{k} {rng.choice(aenc)} @{key} {rb(rng.choice([0, 1, 128]))} 0={U(4)} 100={U(0x1f)} 162=01 103=00")
+            h.op(f"derive @{k} 21:{rng.choice([y, '.', '00', '01', pO, rb(128), rb(200)])} @{key} 0={U(4)} 100={U(0x10)} 161={U(16)} 162=01 103=00")
+            h.op(f"derive @{k} 1050:ecdh(1,{rng.choice([pt[4:], pt, '', '04', rb(65), '0420' + rb(32), rb(32)])}) @{key} 0={U(4)} 100={U(0x10)} 161={U(16)} 162=01 103=00")
+        h.op(f"copy @{k} @{key} 3={hx(h.new_label())}"); h.minted += 1
+    h.op(f"findinit @{k}"); h.op(f"find @{k} 500"); h.op(f"findfinal @{k}")
+    h.op("fini")
+    return h.text()
+
+
+POKE_WORDS = ["8000000000000000", "ffffffffffffffff", "7fffffffffffffff", "0000000000000000", "0000000000000001", "0000000000000002", "0000000000000003", "0000000000000004",
+              "0000000000000005", "0000000000000006", "0000000000000008", "0000000000000010", "0000000000000100", "0000000000010000", "0000000100000000", "00000000ffffffff",
+              "0000000000000161", "0000000000000011", "0000000040000211", "0000000040000600", "000000008000534c", "00000000000000ff", "0100000000000000"]
+
+
+def mutated_files_history(seed, rounds=5):
+    """C17: arbitrary byte content of the files in the token directory.  A token with objects of every stored attribute kind is built, the library is finalized, and then,
+    round after round, files are damaged (length fields replaced by 2^63 and friends, kinds and types replaced, bytes flipped, files cut, extended, emptied, replaced by
+    garbage, removed; stray *.object files added; token.object, the generation and lock files damaged too) and a fresh C_Initialize walks the directory: search, read every kind
+    of attribute, use the keys, rewrite, copy, destroy, create.  While token.object is untouched the number of objects found is compared with the Lean decoder's verdicts."""
+    rng = random.Random(seed)
+    h = OpsGen(rng); h.prologue(1); t = h.toks[0]
+    k = h.open(t, True); h.login(k, t, 'user')
+    U = ul; R = RSA1024
+    rb = lambda n: bytes(rng.randrange(256) for _ in range(n)).hex() or "."
+    nobj = 0
+    def mk(line):
+        nonlocal nobj
+        h.op(f"create @{k} 1=01 3={hx(h.new_label())} " + line); h.minted += 1; nobj += 1
+    mk(f"0={U(0)} 2=00 11={rb(40)} 10={hx('app')}")
+    mk(f"0={U(0)} 2=01 11={rb(rng.choice([0, 1, 300]))}")
+    mk(f"0={U(4)} 100={U(0x1f)} 2=01 11={rb(16)} 104=01 105=01 106=01 107=01 10a=01 108=01 162=01 103=00 40000211={{0={U(4)};162=01}} 40000600={U(0x1081)}{U(0x1082)}{U(0x2109)}")
+    mk(f"0={U(4)} 100={U(0x10)} 2=00 11={rb(32)} 108=01 10a=01 162=01 103=00 110=3230323430313031")
+    mk(f"0={U(2)} 100={U(0)} 2=00 120={R['n']} 122=010001 10a=01 104=01 106=01")
+    mk(f"0={U(3)} 100={U(0)} 2=01 120={R['n']} 122=010001 123={R['d']} 124={R['p']} 125={R['q']} 126={R['dp']} 127={R['dq']} 128={R['qi']} 108=01 105=01 107=01 103=00 162=01")
+    mk(f"0={U(1)} 80={U(0)} 2=00 101={rb(20)} 11={rb(120)}")
+    d = rng.randrange(1, 2**255)
+    mk(f"0={U(3)} 100={U(3)} 2=01 180={P256} 11={d.to_bytes(32, 'big').hex()} 108=01 10c=01 103=00 162=01")
+    for _ in range(rng.randrange(0, 4)): mk(f"0={U(0)} 2={rng.choice(['00', '01'])} 11={rb(rng.choice([5, 64]))}")
+    h.op("fini")
+    h.op("nop mutated")
+    tok_ok = True
+    for _ in range(rounds):
+        for _ in range(rng.choice([1, 1, 2, 3, 6])):
+            c = rng.random()
+            if c < 0.08: target = "T0/token.object"; tok_ok = False
+            elif c < 0.12: target = "T0/generation"
+            elif c < 0.15: target = f"T0/{rng.choice(['zz', 'aa', '0000'])}{rng.randrange(100)}.object"
+            else: target = f"T0/O{rng.randrange(0, nobj + 3)}"
+            m = rng.random()
+            if target.endswith(".object") and "/O" not in target and "token" not in target:
+                h.op(f"fsmut write {target} {rng.choice(['.', '00', rb(7), rb(8), rb(16), rb(24), rb(100), U(1)[::-1] * 3, '00' * 8 + '00' * 7 + '00', '0000000000000001' + '0000000000000000' + '0000000000000002' + '0000000000000005'])}")
+            elif m < 0.35: h.op(f"fsmut poke {target} {8 * rng.randrange(0, 60)} {rng.choice(POKE_WORDS)}")
+            elif m < 0.5: h.op(f"fsmut flip {target} {rng.randrange(0, 700)} {rng.choice(['01', '80', 'ff', '10'])}")
+            elif m < 0.65: h.op(f"fsmut truncate {target} {rng.choice([0, 1, 7, 8, 9, 15, 16, 17, 23, 24, 25, 32, 33, 40, 41, 48]) if rng.random() < 0.6 else rng.randrange(0, 900)}")
+            elif m < 0.75: h.op(f"fsmut append {target} {rng.choice([rb(1), rb(7), rb(8), rb(16), rb(17), rb(24), rb(200), '0000000000000011' + '0000000000000003' + '8000000000000000', '0000000000000011' + '0000000000000003' + '0000000000000004' + 'aabbccdd'])}")
+            elif m < 0.8: h.op(f"fsmut poke {target} {rng.randrange(0, 500)} {rb(rng.choice([1, 2, 4, 8, 32]))}")
+            elif m < 0.88: h.op(f"fsmut write {target} {rng.choice(['.', rb(3), rb(8), rb(24), rb(25), rb(300)])}")
+            elif m < 0.93: h.op(f"fsmut remove {target}")
+            else: h.op(f"fsmut truncate {target} {rng.randrange(0, 120)}")
+        h.op("dumpdir")
+        h.op("init"); h.op("slots")
+        s = h.op(f"open t:{hx(t.label)} 6")
+        h.op(f"login @{s} 1 {hx(t.user)}")
+        h.op(f"findinit @{s}")
+        if tok_ok: h.op("nop expectcount")
+        f = h.op(f"find @{s} 1000"); h.op(f"findfinal @{s}")
+        idx = list(range(nobj + 4)); rng.shuffle(idx)
+        for i in idx[:rng.choice([3, 6, nobj + 4])]:
+            o = f"@{f}.{i}"
+            h.op(f"getattr @{s} {o} 0:8 100:8 1:1 2:1 3:64 11:600 120:300 123:300 180:64 40000211:n 40000600:64 110:8 161:8 90:8 170:1")
+            h.op(f"getattr @{s} {o} 40000211:200 10:64 101:64 80:8 162:1 163:1 164:1 165:1 102:64")
+            h.op(f"objsize @{s} {o}")
+            c = rng.random()
+            if c < 0.25: h.op(f"setattr @{s} {o} 3={hx(h.new_label())}")
+            elif c < 0.4: h.op(f"copy @{s} {o} 3={hx(h.new_label())} 1={rng.choice(['00', '01'])}")
+            elif c < 0.5: h.op(f"destroy @{s} {o}")
+            elif c < 0.62: h.op(f"encinit @{s} {rng.choice(['1081', '1082:' + rb(16), '1', '9:oaep(220,1,)'])} {o}"); h.op(f"enc @{s} {rb(16)} 700")
+            elif c < 0.74: h.op(f"siginit @{s} {rng.choice(['251', '1', '40', '1041', '108a'])} {o}"); h.op(f"sign @{s} {rb(32)} 700")
+            elif c < 0.8: h.op(f"wrap @{s} 2109 {o} @{f}.{rng.randrange(nobj)} 700")
+            elif c < 0.86: h.op(f"derive @{s} 1050:ecdh(1,{rb(65)}) {o} 0={U(4)} 100={U(0x10)} 161={U(16)}")
+            elif c < 0.9: h.op(f"digkey @{s} {o}")
+            else: h.op(f"kcv @{s} {o}")
+        if rng.random() < 0.5: h.op(f"create @{s} 0={U(0)} 1=01 2={rng.choice(['00', '01'])} 3={hx(h.new_label())} 11={rb(10)}")
+        if rng.random() < 0.2: h.op(f"setpin @{s} {hx(t.user)} {hx(t.user)}")
+        if rng.random() < 0.15: h.op(f"inittoken t:{hx(t.label)} {hx(t.so)} {hx(t.label)}")
+        h.op("fini")
+    return h.text()
+
+
+def conf_history(seed, rounds=12):
+    """C17: arbitrary byte content of softhsm2.conf.  Each round writes a configuration (valid lines mixed with damaged ones) and runs C_Initialize and a few calls."""
+    rng = random.Random(seed)
+    h = OpsGen(rng); h.prologue(1); t = h.toks[0]
+    h.op("fini"); h.op("nop mutated")
+    rbs = lambda n: bytes(rng.randrange(256) for _ in range(n))
+    good = [b"directories.tokendir = @TOKENDIR@", b"objectstore.backend = file", b"log.level = ERROR", b"slots.removable = false", b"slots.mechanisms = ALL", b"library.reset_on_fork = false",
+            b"objectstore.umask = 0077"]
+    bad = [b"directories.tokendir =", b"directories.tokendir = /nonexistent/dir", b"directories.tokendir = /etc/passwd", b"directories.tokendir = " + b"a" * 5000, b"objectstore.backend = db",
+           b"objectstore.backend = ", b"objectstore.backend = \xff\xfe", b"log.level = ", b"log.level = NONSENSE", b"log.level = DEBUG", b"slots.removable = maybe", b"slots.removable = true",
+           b"slots.mechanisms = ", b"slots.mechanisms = -", b"slots.mechanisms = CKM_RSA_PKCS,,,CKM_NOPE", b"slots.mechanisms = -" + b"CKM_AES_CBC," * 400, b"slots.mechanisms = -ALL", b"slots.mechanisms = CKM_SHA256",
+           b"library.reset_on_fork = 7", b"objectstore.umask = 99999999999999999999", b"objectstore.umask = -1", b"objectstore.umask = 0x", b"objectstore.umask = 0777", b"=", b"= =", b"a", b"a=", b"=b", b"a.b.c.d = e",
+           b"#", b"# comment = x", b"\x00", b"\x00\x00=\x00", b"directories.tokendir\x00 = x", b"[section]", b"key = value = other", b"   ", b"\t=\t", b"directories.tokendir=@TOKENDIR@",
+           b"DIRECTORIES.TOKENDIR = @TOKENDIR@", b"directories.tokendir = @TOKENDIR@/", b"directories.tokendir = @TOKENDIR@/../tokens", b"directories.tokendir : @TOKENDIR@", b"x" * 70000, b"k = " + b"v" * 70000,
+           b"slots.removable", b"log.level == ERROR", b"objectstore.backend = file\r", b"log.level = ERROR\x0c"]
+    for _ in range(rounds):
+        c = rng.random()
+        if c < 0.1: body = rbs(rng.choice([0, 1, 10, 200, 5000]))
+        else:
+            lines = list(good) if rng.random() < 0.7 else rng.sample(good, rng.randrange(0, len(good)))
+            for _ in range(rng.choice([1, 1, 2, 4])):
+                x = rng.choice(bad + [rbs(rng.choice([1, 5, 40]))])
+                if rng.random() < 0.5: lines.insert(rng.randrange(0, len(lines) + 1), x)
+                elif lines: lines[rng.randrange(len(lines))] = x
+            rng.shuffle(lines) if rng.random() < 0.3 else None
+            sep = rng.choice([b"\n", b"\n", b"\r\n", b"\n\n"])
+            body = sep.join(lines) + (b"" if rng.random() < 0.2 else b"\n")
+        h.op(f"conf {body.hex() or '.'}")
+        h.op("init"); h.op("slots")
+        s = h.op(f"open t:{hx(t.label)} 6"); h.op(f"login @{s} 1 {hx(t.user)}")
+        h.op(f"create @{s} 0={ul(0)} 1={rng.choice(['00', '01'])} 3={hx(h.new_label())} 11=aabb")
+        h.op(f"findinit @{s}"); h.op(f"find @{s} 100"); h.op(f"findfinal @{s}")
+        h.op(f"diginit @{s} 250"); h.op(f"digest @{s} 616263 64")
+        h.op(f"genkey @{s} 1080 161={ul(16)} 3={hx(h.new_label())}")
+        h.op("mechlist 0"); h.op("mechinfo 0 1082")
+        if rng.random() < 0.3: h.op(f"inittoken free {hx(t.so)} {hx('other')}")
+        h.op("fini")
+    return h.text()
+
+
+# ---------------------------------------------------------------------------------------------------------
+# C15: several processes on one token directory
+# ---------------------------------------------------------------------------------------------------------
+def multiproc_history(seed, nproc=2, nops=70, late_start=True):
+    """op file for vlib/multi.py: lines `P<i> <op>`.  Process 0 initialises the token; every process opens its own R/W session and logs in; then a random
+    interleaving (call granularity) of creation, copy, attribute change, destruction, reading and searching of token objects (public and private; data objects and
+    keys) and of session objects, which must stay invisible to the other processes.  A process learns another process's object by searching for its label, so that every
+    later read / change / destruction by it goes through its own handle.  Optionally one process starts late (C_Initialize while the others already work)."""
+    rng = random.Random(seed)
+    lines, cnt = [], [0] * nproc
+    def op(i, text):
+        cnt[i] += 1; lines.append(f"P{i} {text}"); return cnt[i]
+    lab, so, user = hx("tokA"), hx("so0pin0"), hx("user0pin")
+    U = ul
+    rb = lambda n: bytes(rng.randrange(256) for _ in range(n)).hex() or "."
+    op(0, "init"); op(0, "slots"); op(0, f"inittoken free {so} {lab}"); op(0, "slots")
+    k = op(0, f"open t:{lab} 6"); op(0, f"login @{k} 0 {so}"); op(0, f"initpin @{k} {user}"); op(0, f"close @{k}")
+    sess = {}
+    def start(i):
+        if i != 0: op(i, "init")
+        op(i, "slots")
+        sess[i] = op(i, f"open t:{lab} 6"); op(i, f"login @{sess[i]} 1 {user}")
+    late = rng.randrange(1, nproc) if (late_start and nproc > 1 and rng.random() < 0.5) else None
+    for i in range(nproc):
+        if i != late: start(i)
+    objs = []          # dict(label, alive, token, owner, kind, refs {proc: ref})
+    nlab = [0]
+    def newlabel():
+        nlab[0] += 1; return hx("obj%d" % nlab[0])
+    def create(i, token):
+        l = newlabel(); priv = rng.choice(["00", "01"]); kind = rng.choice(["data", "data", "aes"])
+        if kind == "data": t = f"0={U(0)} 1={'01' if token else '00'} 2={priv} 3={l} 11={rb(rng.choice([0, 5, 40]))} 10={hx('app')}"
+        else: t = f"0={U(4)} 100={U(0x1f)} 1={'01' if token else '00'} 2={priv} 3={l} 11={rb(16)} 104=01 105=00 162=01 103=00"
+        k = op(i, f"create @{sess[i]} {t}")
+        objs.append({"label": l, "alive": True, "token": token, "owner": i, "kind": kind, "refs": {i: f"@{k}"}})
+    def learn(i, o):
+        s = sess[i]
+        op(i, f"findinit @{s} 3={o['label']}"); f = op(i, f"find @{s} 10"); op(i, f"findfinal @{s}")
+        if o["alive"] and (o["token"] or o["owner"] == i): o["refs"].setdefault(i, f"@{f}.0")
+    for step in range(nops):
+        if late is not None and late not in sess and step >= nops // 3: start(late)
+        i = rng.choice(list(sess))
+        s = sess[i]; r = rng.random()
+        known = [o for o in objs if i in o["refs"]]
+        others = [o for o in objs if i not in o["refs"]]
+        if r < 0.22 or not objs: create(i, rng.random() < 0.8)
+        elif r < 0.40 and others: learn(i, rng.choice(others))
+        elif r < 0.50: op(i, f"findinit @{s}"); op(i, f"find @{s} 300"); op(i, f"findfinal @{s}")
+        elif r < 0.56: op(i, f"findinit @{s} 0={U(rng.choice([0, 4]))} 1=01"); op(i, f"find @{s} 300"); op(i, f"findfinal @{s}")
+        elif r < 0.70 and known:
+            o = rng.choice(known); op(i, f"getattr @{s} {o['refs'][i]} 3:64 11:64 104:1 105:1 1:1 2:1 102:64")
+        elif r < 0.82 and known:
+            o = rng.choice(known)
+            if o["kind"] == "data": op(i, f"setattr @{s} {o['refs'][i]} {rng.choice(['11=' + rb(rng.choice([1, 8, 33])), '10=' + rb(4)])}")
+            else: op(i, f"setattr @{s} {o['refs'][i]} {rng.choice(['104=00', '104=01', '105=01', '105=00', '102=' + rb(6)])}")
+        elif r < 0.90 and known:
+            o = rng.choice(known); op(i, f"destroy @{s} {o['refs'][i]}"); o["alive"] = False
+        elif r < 0.96 and known:
+            o = rng.choice(known); l = newlabel(); tok = rng.random() < 0.8
+            k = op(i, f"copy @{s} {o['refs'][i]} 3={l} 1={'01' if tok else '00'}")
+            objs.append({"label": l, "alive": o["alive"], "token": tok, "owner": i, "kind": o["kind"], "refs": {i: f"@{k}"}})
+        else:
+            o = rng.choice(objs); learn(i, o)
+    # every process ends with a full search and reads everything it knows
+    for i in sess:
+        s = sess[i]
+        op(i, f"findinit @{s}"); op(i, f"find @{s} 300"); op(i, f"findfinal @{s}")
+        for o in objs:
+            if i in o["refs"]: op(i, f"getattr @{s} {o['refs'][i]} 3:64 11:64 104:1 105:1")
+    for i in sess: op(i, "fini")
+    return "\n".join(lines) + "\n"
+
+
+# ---------------------------------------------------------------------------------------------------------
+# C18: threads of one process, each with its own session(s)
+# ---------------------------------------------------------------------------------------------------------
+def thread_history(seed, nthreads=2, nops=8, init="initmx"):
+    """op file for `p11drv -t`: `M` lines (main thread: C_Initialize with the mutex callbacks, token set-up; C_Finalize at the end) and `T<i>` lines.  @k counts all op lines.
+    Every thread works through sessions of its own: opens and closes them (so that "the last session of the token is closed" happens while others open theirs), logs in
+    and out (token-wide), creates / copies / changes / destroys / reads session and token objects, searches (everything, or another thread's object by label), and runs
+    digest and encryption operations."""
+    rng = random.Random(seed)
+    lines = []
+    def op(tag, text):
+        lines.append(f"{tag} {text}"); return len(lines)
+    lab, so, user = hx("tokA"), hx("so0pin0"), hx("user0pin")
+    U = ul
+    rb = lambda n: bytes(rng.randrange(256) for _ in range(n)).hex() or "."
+    op("M", init); op("M", "slots"); op("M", f"inittoken free {so} {lab}"); op("M", "slots")
+    k = op("M", f"open t:{lab} 6"); op("M", f"login @{k} 0 {so}"); op("M", f"initpin @{k} {user}"); op("M", f"close @{k}")
+    two_tokens = rng.random() < 0.25
+    lab2 = hx("tokB")
+    if two_tokens:
+        op("M", f"inittoken free {so} {lab2}"); op("M", "slots")
+        k = op("M", f"open t:{lab2} 6"); op("M", f"login @{k} 0 {so}"); op("M", f"initpin @{k} {user}"); op("M", f"close @{k}")
+    nlab = [0]; labels = []
+    def newlabel():
+        nlab[0] += 1; l = hx("obj%d" % nlab[0]); labels.append(l); return l
+    for t in range(nthreads):
+        tag = f"T{t}"; mylab = lab2 if (two_tokens and t % 2 == 1) else lab
+        s = op(tag, f"open t:{mylab} 6"); mine = []; key = None
+        for _ in range(nops):
+            r = rng.random()
+            if s is None:
+                s = op(tag, f"open t:{mylab} {rng.choice([6, 6, 4])}"); mine = [m for m in mine if m[1]]; key = None; continue
+            if r < 0.10: op(tag, f"close @{s}"); s = None
+            elif r < 0.16: op(tag, f"login @{s} 1 {user}")
+            elif r < 0.20: op(tag, f"logout @{s}")
+            elif r < 0.38:
+                tok = rng.random() < 0.5; l = newlabel()
+                k = op(tag, f"create @{s} 0={U(0)} 1={'01' if tok else '00'} 2={rng.choice(['00', '00', '01'])} 3={l} 11={rb(rng.choice([3, 20]))}"); mine.append((f"@{k}", tok))
+            elif r < 0.44:
+                l = newlabel(); key = op(tag, f"create @{s} 0={U(4)} 100={U(0x1f)} 1=00 2=00 3={l} 11={rb(16)} 104=01 105=01 162=01 103=00"); mine.append((f"@{key}", False))
+            elif r < 0.54: op(tag, f"findinit @{s}"); op(tag, f"find @{s} 200"); op(tag, f"findfinal @{s}")
+            elif r < 0.62 and labels:
+                l = rng.choice(labels); op(tag, f"findinit @{s} 3={l}"); f = op(tag, f"find @{s} 5"); op(tag, f"findfinal @{s}")
+                x = rng.random()
+                if x < 0.4: op(tag, f"getattr @{s} @{f}.0 3:64 11:64 1:1 2:1")
+                elif x < 0.6: op(tag, f"destroy @{s} @{f}.0")
+                elif x < 0.8: op(tag, f"setattr @{s} @{f}.0 10={rb(4)}")
+            elif r < 0.70 and mine: op(tag, f"getattr @{s} {rng.choice(mine)[0]} 3:64 11:64 1:1 2:1")
+            elif r < 0.76 and mine: op(tag, f"setattr @{s} {rng.choice(mine)[0]} 10={rb(4)}")
+            elif r < 0.82 and mine:
+                m = rng.choice(mine); op(tag, f"destroy @{s} {m[0]}"); mine.remove(m)
+            elif r < 0.86 and mine:
+                l = newlabel(); tok = rng.random() < 0.5; k = op(tag, f"copy @{s} {rng.choice(mine)[0]} 3={l} 1={'01' if tok else '00'}"); mine.append((f"@{k}", tok))
+            elif r < 0.92: op(tag, f"diginit @{s} 250"); op(tag, f"digupd @{s} {rb(10)}"); op(tag, f"digfinal @{s} 64")
+            elif r < 0.96 and key: op(tag, f"encinit @{s} 1081 @{key}"); op(tag, f"enc @{s} {rb(16)} 64")
+            else: op(tag, f"sinfo @{s}")
+            # C_CloseAllSessions is left out on purpose: it closes the sessions the OTHER threads are using, which the property's premise
+            # ("threads that concurrently use different sessions") excludes
+    # the main thread's closing inventory (the threads have ended): everything on each token, seen as the user
+    for l in ([lab, lab2] if two_tokens else [lab]):
+        op("M", f"open t:{l} 4"); k = len(lines)
+        op("M", f"login @{k} 1 {user}")
+        op("M", f"findinit @{k}"); op("M", f"find @{k} 500"); op("M", f"findfinal @{k}")
+    op("M", "fini")
+    return "\n".join(lines) + "\n"
+
+
+def thread_scenarios():
+    """C18, systematic part: two threads, one call A of thread 0 pre-empted at EVERY mutex callback it makes, thread 1 running its calls B1..Bw to completion inside.
+    Returns [(name, ops_text, w)].  The sessions and objects both threads need are set up by the main thread before the threads start."""
+    lab, so, user = hx("tokA"), hx("so0pin0"), hx("user0pin")
+    U = ul
+    out = []
+    A = {   # name -> (needs S1 opened in the prologue?, [A call, follow-up calls of thread 0 …])
+        "close-last": (False, ["close {S0}"]),
+        "close": (True, ["close {S0}"]),
+        "create-token": (True, [f"create {{S0}} 0={U(0)} 1=01 2=00 3={hx('newA')} 11=a1a1", "getattr {S0} @{A0} 3:64 11:64"]),
+        "create-session": (True, [f"create {{S0}} 0={U(0)} 1=00 2=00 3={hx('newA')} 11=a1a1", "getattr {S0} @{A0} 3:64 11:64"]),
+        "create-private": (True, [f"create {{S0}} 0={U(0)} 1=01 2=01 3={hx('newA')} 11=a1a1", "getattr {S0} @{A0} 3:64 11:64"]),
+        "destroy": (True, ["destroy {S0} {X}", "probe {S0} {X}"]),
+        "setattr": (True, ["setattr {S0} {X} 10=0a0b0c", "getattr {S0} {X} 10:64 11:64"]),
+        "logout": (True, ["logout {S0}", "sinfo {S0}"]),
+        "login": (True, ["logout {S0}", f"login {{S0}} 1 {user}", "sinfo {S0}"]),
+        "find": (True, ["findinit {S0}", "find {S0} 100", "findfinal {S0}"]),
+        "open": (True, [f"open t:{lab} 6", "sinfo @{A0}"]),
+        "copy": (True, [f"copy {{S0}} {{X}} 3={hx('newA')} 1=01", "getattr {S0} @{A0} 3:64 11:64"]),
+    }
+    B = {   # name -> (uses S1 from the prologue?, [calls of thread 1 …])
+        "open-create-read": (False, [f"open t:{lab} 6", f"create @{{B0}} 0={U(0)} 1=00 2=00 3={hx('newB')} 11=b2b2", "getattr @{B0} @{B1} 3:64 11:64", "findinit @{B0}", "find @{B0} 100", "findfinal @{B0}"]),
+        "create-token": (True, [f"create {{S1}} 0={U(0)} 1=01 2=00 3={hx('newB')} 11=b2b2", "findinit {S1}", "find {S1} 100", "findfinal {S1}"]),
+        "destroy": (True, ["destroy {S1} {X}", "probe {S1} {X}"]),
+        "read-change": (True, ["getattr {S1} {X} 3:64 11:64 10:64", "setattr {S1} {X} 10=0d0e", "getattr {S1} {X} 10:64"]),
+        "logout": (True, ["logout {S1}", "sinfo {S1}"]),
+        "find-read": (True, ["findinit {S1}", "find {S1} 100", "findfinal {S1}", "getattr {S1} {Z} 3:64 11:64"]),
+        "close": (True, ["close {S1}"]),
+        "open-close": (False, [f"open t:{lab} 4", "sinfo @{B0}", "close @{B0}"]),
+        "session-object": (True, [f"create {{S1}} 0={U(0)} 1=00 2=01 3={hx('newB')} 11=b2b2", "destroy {S1} @{B0}"]),
+    }
+    for an, (needS1, acalls) in A.items():
+        for bn, (usesS1, bcalls) in B.items():
+            if usesS1 and not needS1: continue
+            lines = []
+            def op(tag, text):
+                lines.append(f"{tag} {text}"); return len(lines)
+            op("M", "initmx"); op("M", "slots"); op("M", f"inittoken free {so} {lab}"); op("M", "slots")
+            k = op("M", f"open t:{lab} 6"); op("M", f"login @{k} 0 {so}"); op("M", f"initpin @{k} {user}"); op("M", f"close @{k}")
+            S0 = "@%d" % op("M", f"open t:{lab} 6"); op("M", f"login {S0} 1 {user}")
+            X = "@%d" % op("M", f"create {S0} 0={U(0)} 1=01 2=00 3={hx('objX')} 11=1111 10=00")
+            op("M", f"create {S0} 0={U(0)} 1=00 2=00 3={hx('objY')} 11=2222")
+            Z = "@%d" % op("M", f"create {S0} 0={U(0)} 1=01 2=01 3={hx('objZ')} 11=3333")
+            S1 = None
+            if needS1 and usesS1: S1 = "@%d" % op("M", f"open t:{lab} 6")
+            elif needS1: op("M", f"open t:{lab} 4")          # another session exists, so that A's session is not the last one
+            a0 = len(lines) + (2 if an == "login" else 1)
+            for c in acalls: op("T0", c.replace("{S0}", S0).replace("{X}", X).replace("{A0}", str(a0)))
+            b0 = len(lines) + 1
+            for c in bcalls: op("T1", c.replace("{S1}", S1 or "").replace("{X}", X).replace("{Z}", Z).replace("{B0}", str(b0)).replace("{B1}", str(b0 + 1)))
+            k = op("M", f"open t:{lab} 4"); op("M", f"login @{k} 1 {user}")
+            op("M", f"findinit @{k}"); op("M", f"find @{k} 500"); op("M", f"findfinal @{k}")
+            op("M", f"getattr @{k} {X} 3:64 10:64 11:64")
+            op("M", "fini")
+            for w in sorted({1, len(bcalls)}):
+                out.append((f"{an}/{bn}/w{w}", "\n".join(lines) + "\n", w))
+    return out
